@@ -58,6 +58,20 @@ Round 4:
   the HRNP / HSTRP wrapper arguments too; the PDU must serialise to the octets of the PDU built from the plain values, report that
   length, parse back to the same fields and nest to the hand-written packets; the GPS forms are answered by the model as well
   (`arg.gps`, Props/C12d).  A fifth of the LP reports of the random stream and some history steps use rich time / date objects too.
+Round 5:
+* constant tables (table:*): an Enum member's value changed, a member added or removed, a dict-literal key changed — no function statement
+  changes.  Every run reads with `ast` every Enum / IntEnum / Flag member, every dict-literal key list and every class-level constant of
+  okdmr/dmrlib/hytera/pdu/*.py and of the okdmr modules they import (props/hytera_tables.py) from the CURRENT source (VERIF_REPO or /repo) and
+  compares them with the committed catalogue harness/props/c12.enums.json (regenerate after an intended change of a table:
+  `/venv/bin/python harness/props/c12.py --rebaseline`).  The catalogue only directs the search and says which wire values were documented when
+  it was taken; a difference is never reported by itself.  Sweeps (run_tables): the hand-written frame of every implemented message kind (40
+  kinds, plain and reliable); every documented member of every enum in every field where it is parsed; every value of every 8-bit field; the
+  16-bit fields (RCP / LP opcode, LP result, the four fields of the repeater broadcast status) and the raw pass-through opcode of an
+  UnknownService PDU BUILT BY THE LIBRARY over the seed-rotated sixteenth of 0..65535 (thorough: all of it) plus the neighbourhood of every
+  catalogue entry; all 128 HSTRP option types; all 256 HRNP opcodes; and, directed by the differences, every value that is new, gone or
+  changed (old and new, each ±1) in EVERY field of every kind, as raw opcode, option type and HRNP opcode.  Entry points: the service class's
+  from_bytes, HDAP.from_bytes, HRNP.from_bytes and HSTRP.from_bytes of hand-written wrappers; what parses is rebuilt through the constructor
+  from its field tuple and goes through the whole oracle (frame, length, checksum, len(), HRNP, HSTRP, model).
 """
 import collections
 import copy
@@ -75,7 +89,11 @@ import decimal
 import fractions
 from datetime import date, datetime, time, timedelta, timezone
 
+if __name__ == "__main__":  # maintainer switch `/venv/bin/python harness/props/c12.py --rebaseline` (see the end of the file)
+    sys.path.insert(0, os.path.dirname(os.path.dirname(os.path.abspath(__file__))))
+
 from common import impl_error
+from props import hytera_tables as HT
 
 PROP = "C12"
 MODULES = ["C12", "C12a", "C12b", "C12c", "C12d"]
@@ -3614,6 +3632,351 @@ PROBES = {"provenance": probe_provenance, "alias": probe_alias, "size": probe_si
 
 
 # ------------------------------------------------------------------------------------------------
+# round 5: constant tables (Enum members, dict-literal keys, class-level constants) — see the module docstring and
+# props/hytera_tables.py.  The catalogue (c12.enums.json) says which wire values were documented when it was taken and
+# directs the search; every verdict is the oracle's on a concrete frame / PDU.
+
+TABLE_FAILURE_CAP = 300  # failing inputs after which the table sweeps stop adding more (a removed class fails thousands of frames)
+
+
+class TableRun:
+    """state of one run of the table sweeps"""
+
+    def __init__(self, ctx, rng, pairs):
+        self.ctx, self.rng, self.pairs = ctx, rng, pairs
+        self.rd = HT.Reading(PROP, HT.roots_pdu())
+        self.cat, self.cur, self.diff, self.cand, self.changed = self.rd.cat, self.rd.cur, self.rd.diff, self.rd.cand, self.rd.changed
+        self.sn = 0
+        self.n0 = len(ctx.failures)
+
+    def enough(self):
+        return len(self.ctx.failures) - self.n0 >= TABLE_FAILURE_CAP
+
+    def next_sn(self):
+        self.sn = (self.sn * 257 + 4099) % 65536
+        return self.sn
+
+
+def site_expectation(tr, site, v, own):
+    """(must, lossy, judge): must = the catalogue documents the frame with v in this field, so it has to parse and re-encode to itself;
+    lossy = unknown values fold onto a member (re-encoding an undocumented value differs by design); judge = a frame that happens to
+    parse although it is not documented is still a PDU of this kind, so it has to re-encode to itself"""
+    cat, cur = tr.cat, tr.cur
+    if site.cls == HT.RAW:
+        return True, False, False
+    if site.label == "service":
+        return v == own, False, False
+    if site.opcode:
+        if v == own:
+            return True, False, False
+        if cat.folds(site.cls):  # raw pass-through: every value the catalogue does not list travels as UnknownService
+            return v not in cat.values(site.cls), False, False
+        return False, False, False
+    lossy = cat.folds(site.cls) or tr.rd.now_folds(site.cls)
+    return v in cat.values(site.cls), lossy, not lossy
+
+
+def frame_entry_points(frame: bytes, sn: int, opts: bytes):
+    """the hand-written wrappers around an HDAP frame"""
+    return (HT.hrnp_packet(0x00, frame, source=0x20 + sn % 7, destination=0x10, block=sn % 256, number=sn),
+            HT.hstrp_packet(0x20 if opts else 0x00, sn, opts, frame))
+
+
+TABLE_OPTS = HT.tlv([(3, b"\x00\x23\x38\x3b"), (4, b"\x01")])
+
+
+def table_frame(tr, frame: bytes, must: bool, where: dict, deep=False, lossy=False, judge=True, pairs=None):
+    """one hand-written HDAP frame through every entry point.  must: documented, has to parse; whatever parses (and is not a lossy
+    fold) has to re-encode to the frame, report its length, and nest; deep: rebuilt through the constructor + the whole oracle"""
+    ctx = tr.ctx
+    inp = dict(where, frame=frame.hex(), layer="hdap", documented=bool(must))
+    q = call(L.hdap.HDAP.from_bytes, frame)
+    if isinstance(q, Exc) or q is None:
+        if must:
+            ctx.fail("documented-frame-parse", inp, f"a frame that carries documented values only is not parsed: HDAP.from_bytes gave {q!r}", expected="a PDU", actual=repr(q))
+        return None
+    if not must and (lossy or not judge):
+        return q
+    ok = True
+    b2, n = call(q.as_bytes), call(len, q)
+    if isinstance(b2, Exc) or b2 != frame:
+        ctx.fail("roundtrip-bytes", inp, "parse then serialise does not reproduce the frame", expected=frame.hex(), actual=repr(b2) if isinstance(b2, Exc) else b2.hex())
+        ok = False
+    elif n != len(frame):
+        ctx.fail("len-mismatch", inp, "len() of the parsed PDU differs from the number of octets of its frame", expected=len(frame), actual=repr(n))
+        ok = False
+    t = safe(pdu_tuple, q)
+    # the service class's own parser
+    q1 = call(type(q).from_bytes, frame)
+    if isinstance(q1, Exc) or q1 is None or safe(pdu_tuple, q1) != t or call(q1.as_bytes) != frame:
+        ctx.fail("roundtrip-fields", inp, f"{type(q).__name__}.from_bytes and HDAP.from_bytes read the frame differently", expected=t, actual=repr(q1) if isinstance(q1, Exc) or q1 is None else safe(pdu_tuple, q1))
+        ok = False
+    sn = tr.next_sn()
+    hb, sb = frame_entry_points(frame, sn, TABLE_OPTS if sn % 2 else b"")
+    h = call(L.hrnp.HRNP.from_bytes, hb)
+    if isinstance(h, Exc):
+        ctx.fail("parse-raises", dict(inp, layer="hrnp", packet=hb.hex()), f"HRNP.from_bytes of the frame in a hand-written HRNP DATA packet raised {h}", actual=repr(h))
+        ok = False
+    else:
+        hb2 = call(h.as_bytes)
+        if not h.checksum_correct or isinstance(hb2, Exc) or hb2 != hb or safe(pdu_tuple, h.data) != t:
+            ctx.fail("roundtrip-bytes", dict(inp, layer="hrnp", packet=hb.hex()), "the frame in a hand-written HRNP DATA packet does not parse to the same PDU / verify / re-encode",
+                     expected=[hb.hex(), t, True], actual=[repr(hb2) if isinstance(hb2, Exc) else hb2.hex(), safe(pdu_tuple, h.data), h.checksum_correct])
+            ok = False
+    s = call(L.hstrp.HSTRP.from_bytes, sb)
+    if isinstance(s, Exc) or s is None:
+        ctx.fail("parse-raises", dict(inp, layer="hstrp", packet=sb.hex()), f"HSTRP.from_bytes of the frame in a hand-written HSTRP packet gave {s!r}", actual=repr(s))
+        ok = False
+    else:
+        sb2 = call(s.as_bytes)
+        if isinstance(sb2, Exc) or sb2 != sb or safe(pdu_tuple, s.payload) != t:
+            ctx.fail("roundtrip-bytes", dict(inp, layer="hstrp", packet=sb.hex()), "the frame in a hand-written HSTRP packet does not parse to the same PDU / re-encode",
+                     expected=[sb.hex(), t], actual=[repr(sb2) if isinstance(sb2, Exc) else sb2.hex(), safe(pdu_tuple, s.payload)])
+            ok = False
+    if deep and ok and not t.startswith("ERR"):
+        # the library's own output: the PDU its constructor builds from these field values, through the whole oracle and the model
+        p = call(build_from_tuple, t)
+        if isinstance(p, Exc):
+            ctx.fail("construct-raises", dict(inp, fields=t, service=t.split(" ")[0]), f"constructing the PDU a documented frame parses to raised {p}", actual=repr(p))
+        else:
+            b = one_pdu(ctx, tr.rng, p, "table:" + str(where.get("kind", "frame")), pairs if pairs is not None else tr.pairs)
+            if b is not None and b != frame:
+                ctx.fail("roundtrip-bytes", dict(inp, fields=t, service=t.split(" ")[0]), "the PDU built from the parsed field values serialises to other octets than the frame they were parsed from",
+                         expected=frame.hex(), actual=b.hex())
+    return q
+
+
+def passthrough_light(v: int, payload: bytes, reliable: bool, sn: int) -> bool:
+    """an UnknownService PDU built by the library with raw opcode v: frame written out by hand, len(), the four parsers, re-encoding"""
+    C = L.rcp
+    ro = v.to_bytes(2, "little")
+    try:
+        p = C.RadioControlProtocol(opcode=C.RCPOpcode.UnknownService, raw_opcode=ro, raw_payload=payload, is_reliable=reliable)
+        b = p.as_bytes()
+        if b != HT.hdap_frame(SERVICE["RCP"] | (0x80 if reliable else 0), ro, payload, True) or len(p) != len(b):
+            return False
+        hb, sb = frame_entry_points(b, sn, TABLE_OPTS if sn % 2 else b"")
+        for q in (L.hdap.HDAP.from_bytes(b), C.RadioControlProtocol.from_bytes(b), L.hrnp.HRNP.from_bytes(hb).data, L.hstrp.HSTRP.from_bytes(sb).payload):
+            if type(q) is not C.RadioControlProtocol or q.opcode != C.RCPOpcode.UnknownService or q.raw_opcode != ro or q.raw_payload != payload \
+                    or q.is_reliable != reliable or q.as_bytes() != b or len(q) != len(b):
+                return False
+        return L.hrnp.HRNP.from_bytes(hb).as_bytes() == hb and L.hstrp.HSTRP.from_bytes(sb).as_bytes() == sb
+    except BaseException:  # noqa
+        return False
+
+
+def table_passthrough(tr, v: int, payload: bytes, reliable: bool, deep: bool):
+    """the pass-through PDU with raw opcode v; deep (or when the light check fails): through one_pdu, which records the failing input"""
+    ctx = tr.ctx
+    if not deep and passthrough_light(v, payload, reliable, tr.next_sn()):
+        return True
+    O = L.rcp.RCPOpcode
+    c = Case("RCP", dict(opcode=O.UnknownService, is_reliable=reliable, raw_opcode=v.to_bytes(2, "little"), raw_payload=payload))
+    n0 = len(ctx.failures)
+    p = build_case(ctx, c)
+    if p is not None:
+        one_pdu(ctx, tr.rng, p, "table:rcp-pass-through", tr.pairs, case=c)
+    if not deep and len(ctx.failures) == n0:
+        ctx.fail("roundtrip-fields", input_of(p, case=c) if p is not None else {"service": "RCP", "fields": safe(c.expected)},
+                 "an UnknownService PDU does not survive serialise / parse through HDAP, RadioControlProtocol, HRNP and HSTRP with its raw opcode and payload")
+    return len(ctx.failures) == n0
+
+
+def run_tables(ctx, rng, pairs):
+    tr = TableRun(ctx, rng, pairs)
+    cat, cur = tr.cat, tr.cur
+    n_enums = sum(1 for _ in cur.all_enums())
+    ctx.count("table:enum-classes-harvested", n_enums)
+    ctx.count("table:enum-members-harvested", sum(len(e["members"]) for _r, _q, e in cur.all_enums()))
+    ctx.count("table:dict-key-tables-harvested", sum(len(m["dicts"]) for m in cur.mods.values()))
+    ctx.count("table:differences-from-catalogue", len(tr.diff))
+    if tr.diff:
+        ctx.notes.append("constant tables differ from the catalogue c12.enums.json (directs the sweeps only): " + tr.rd.describe())
+    for need in ("RCPOpcode", HT.SERVICE_ENUM, "HSTRPOptionType", "HRNPOpcodes"):
+        if cat.enum(need) is None:
+            raise RuntimeError(f"the catalogue harness/props/c12.enums.json has no table {need}: regenerate it (--rebaseline)")
+    parts = 16 if ctx.thorough() else min(16, ctx.boost)
+
+    def share_for(cls):
+        return HT.share16(ctx.seed, 16 if cls in tr.changed else parts)
+
+    # ---- A: the documented frame of every implemented kind, plain and reliable
+    base = {}
+    for k in HT.KINDS:
+        for rel in (False, True):
+            f = k.frame(cat, reliable=rel)
+            if f is None:
+                raise RuntimeError(f"the catalogue lacks a table the kind {k.name} needs: regenerate it (--rebaseline)")
+            ctx.count("table:documented-kind-frame")
+            ctx.case(("table-kind", k.name, rel))
+            table_frame(tr, f, True, {"kind": k.name, "site": "-", "value": None}, deep=True)
+            if not rel:
+                base[k.name] = f
+    # catalogued opcodes the library lists without implementing them: outside "implemented opcodes"
+    for svc, en in HT.OPCODE_ENUM.items():
+        for name, _v in cat.members(en):
+            if (svc, name) not in HT.IMPLEMENTED and name != "UnknownService":
+                ctx.count("precondition:catalogued-opcode-not-implemented")
+    # ---- B: every documented member of every enum in every field where it is parsed; what the current source adds is judged as parsed
+    for k in HT.KINDS:
+        own_svc, own_op = cat.value_of(HT.SERVICE_ENUM, HT.SVC[k.svc][0]), cat.value_of(k.op_enum, k.op_name)
+        for site in k.sites():
+            if site.opcode or site.label == "service":
+                continue
+            vals = list(cat.members(site.cls)) + [(n, v) for n, v in tr.rd.now_members(site.cls) if v not in cat.values(site.cls)]
+            for name, v in vals:
+                if v >= site.space or tr.enough():
+                    continue
+                must, lossy, judge = site_expectation(tr, site, v, None)
+                ctx.count("table:member-in-field")
+                ctx.case(("table-member", site.name(), v))
+                table_frame(tr, site.put(base[k.name], v), must, {"kind": k.name, "site": site.name(), "value": v, "member": name}, deep=True, lossy=lossy, judge=judge)
+    if pairs is not None:
+        ctx.correspond("constant tables: documented frames and members", pairs)
+        del pairs[:]
+    # ---- C: directed by the differences: every value that is new, gone or changed (±1) in every field of every kind, as raw opcode …
+    for v, why in sorted(tr.cand.items()):
+        if tr.enough():
+            break
+        # as the raw opcode of a pass-through PDU built by the library (unless the value is catalogued then and now: a known opcode is not pass-through)
+        if not (v in cat.values("RCPOpcode") and v in tr.rd.now_values("RCPOpcode")):
+            for pl in HT.PASS_PAYLOADS:
+                for rel in (False, True):
+                    ctx.count("table:difference-directed-pass-through")
+                    ctx.case(("table-cand-pass", v, pl, rel))
+                    table_passthrough(tr, v, pl, rel, deep=True)
+        for k in HT.KINDS:
+            own_svc, own_op = cat.value_of(HT.SERVICE_ENUM, HT.SVC[k.svc][0]), cat.value_of(k.op_enum, k.op_name)
+            for site in k.sites():
+                if v >= site.space:
+                    continue
+                must, lossy, judge = site_expectation(tr, site, v, own_svc if site.label == "service" else own_op)
+                ctx.count("table:difference-directed-frame")
+                ctx.case(("table-cand", site.name(), v))
+                table_frame(tr, site.put(base[k.name], v), must, {"kind": k.name, "site": site.name(), "value": v, "directed-by": why[:3]}, deep=must, lossy=lossy, judge=judge)
+    if pairs is not None and pairs:
+        ctx.correspond("constant tables: difference-directed frames", pairs)
+        del pairs[:]
+    # ---- D: every value of every 8-bit field (the service field once per service)
+    seen_service = set()
+    for k in HT.KINDS:
+        own_svc, own_op = cat.value_of(HT.SERVICE_ENUM, HT.SVC[k.svc][0]), cat.value_of(k.op_enum, k.op_name)
+        for site in k.sites():
+            if site.width != 1 or tr.enough():
+                continue
+            if site.label == "service":
+                if k.svc in seen_service:
+                    continue
+                seen_service.add(k.svc)
+            for v in range(site.space):
+                must, lossy, judge = site_expectation(tr, site, v, own_svc if site.label == "service" else own_op)
+                ctx.count("table:8-bit-field-value")
+                ctx.case(("table-8", site.name(), v), nontrivial=must)
+                table_frame(tr, site.put(base[k.name], v), must, {"kind": k.name, "site": site.name(), "value": v}, lossy=lossy, judge=judge)
+    # ---- E: 16-bit fields of hand-written frames: the seed-rotated share (all of it when the field's table differs / thorough) + neighbourhood
+    for k in HT.KINDS:
+        own_op = cat.value_of(k.op_enum, k.op_name)
+        for site in k.sites():
+            if site.width != 2 or site.cls == HT.RAW or tr.enough():
+                continue
+            if site.opcode and k.svc == "RCP" and k.op_name != "CallRequest":
+                continue  # the raw pass-through space is swept once by hand (here, in the call request frame) and once through the constructor (F)
+            near = HT.neighbourhood(cat.values(site.cls) | tr.rd.now_values(site.cls))
+            vals = list(share_for(site.cls))
+            chosen = set(vals)
+            vals += sorted(near - chosen)
+            ctx.count(f"table:16-bit-field-share:{site.name()}", len(vals))
+            f0 = base[k.name]
+            for v in vals:
+                must, lossy, judge = site_expectation(tr, site, v, own_op)
+                ctx.case(("table-16", site.name(), v), nontrivial=must)
+                if must or site.opcode:
+                    table_frame(tr, site.put(f0, v), must, {"kind": k.name, "site": site.name(), "value": v}, lossy=lossy, judge=judge)
+                else:
+                    # not documented: nothing is asked of the parser; what it accepts nevertheless is judged like every parsed frame
+                    f = site.put(f0, v)
+                    q = call(L.hdap.HDAP.from_bytes, f)
+                    if not isinstance(q, Exc) and q is not None and judge and not lossy:
+                        table_frame(tr, f, False, {"kind": k.name, "site": site.name(), "value": v}, lossy=lossy, judge=judge)
+    # ---- F: the raw pass-through opcode of an UnknownService PDU built by the library
+    known_both = cat.values("RCPOpcode") & tr.rd.now_values("RCPOpcode")
+    vals = list(share_for("RCPOpcode"))
+    chosen = set(vals)
+    vals += sorted(HT.neighbourhood(cat.values("RCPOpcode") | tr.rd.now_values("RCPOpcode")) - chosen)
+    n_pass = 0
+    for i, v in enumerate(vals):
+        if v in known_both:
+            ctx.count("precondition:raw-opcode-is-a-catalogued-opcode")
+            continue
+        if tr.enough():
+            break
+        n_pass += 1
+        pl = HT.PASS_PAYLOADS[(v ^ (v >> 8)) % len(HT.PASS_PAYLOADS)]
+        ctx.case(("table-pass", v))
+        table_passthrough(tr, v, pl, bool((v >> 3) & 1), deep=(i % 512 == 0))
+    ctx.count("table:pass-through-opcode", n_pass)
+    # ---- G: HSTRP option types (7 bits) and HRNP opcodes (8 bits), all values; difference candidates are among them
+    H, S = L.hrnp, L.hstrp
+    opt_names = {v: n for n, v in cat.members("HSTRPOptionType")}
+    for v in range(128):
+        must = v in opt_names
+        d = bytes([0x11] * HT.OPTION_LEN.get(opt_names.get(v), 1))
+        for chain in ([(v, d)], [(v, d), (4, b"\x02")], [(3, b"\x00\x01\x86\x9f"), (v, d)]):
+            ob = HT.tlv(chain)
+            sb = HT.hstrp_packet(0x20, 0x0100 + v, ob, base["RCP.CallRequest"])
+            ctx.count("table:hstrp-option-type")
+            ctx.case(("table-opt", v, len(chain)), nontrivial=must)
+            inp = {"frame": sb.hex(), "layer": "hstrp", "site": "hstrp option type", "value": v, "documented": must}
+            o = call(S.HSTRPOptions.from_bytes, ob)
+            s = call(S.HSTRP.from_bytes, sb)
+            if isinstance(s, Exc) or s is None or isinstance(o, Exc):
+                if must:
+                    ctx.fail("documented-frame-parse", inp, f"an HSTRP packet whose options carry documented types only is not parsed: {s!r} / {o!r}", expected="a packet", actual=repr(s))
+                continue
+            got = [(c.value, bytes(x)) for c, x in s.options.options]
+            if call(s.as_bytes) != sb or call(o.as_bytes) != ob or got != chain or len(o) != len(ob):
+                ctx.fail("hstrp-options", inp, "an HSTRP option chain does not parse to its (type, data) list / re-encode to itself", expected=[(c, x.hex()) for c, x in chain], actual=[(c, x.hex()) for c, x in got])
+    hops = cat.values("HRNPOpcodes")
+    data_op = cat.value_of("HRNPOpcodes", "DATA")
+    for v in range(256):
+        must = v in hops
+        for inner in ((b"",) if v != data_op else (base["RCP.CallRequest"], base["TMP.SendPrivateMessage"])):  # a DATA packet carries an HDAP frame
+            hb = HT.hrnp_packet(v, inner, number=0x0200 + v)
+            ctx.count("table:hrnp-opcode")
+            ctx.case(("table-hrnp", v, len(inner)), nontrivial=must)
+            inp = {"frame": hb.hex(), "layer": "hrnp", "site": "hrnp opcode", "value": v, "documented": must}
+            h = call(H.HRNP.from_bytes, hb)
+            if isinstance(h, Exc):
+                if must:
+                    ctx.fail("documented-frame-parse", inp, f"an HRNP packet with a documented opcode is not parsed: {h!r}", expected="a packet", actual=repr(h))
+                continue
+            if not h.checksum_correct or call(h.as_bytes) != hb or h.opcode.value != v or call(len, h) != len(hb):
+                ctx.fail("roundtrip-bytes", inp, "an HRNP packet does not verify / re-encode to itself / report its length", expected=hb.hex(), actual=repr(call(h.as_bytes)))
+    if pairs is not None and pairs:
+        ctx.correspond("constant tables: field sweeps", pairs)
+        del pairs[:]
+
+
+def replay_frame(inp):
+    """re-run of a table-sweep input: the recorded frame (and the hand-written wrapper around it) through its parser"""
+    data = bytes.fromhex(inp["frame"])
+    layer = inp.get("layer", "hdap")
+    print(f"frame (kind {inp.get('kind')}, field {inp.get('site')}, value {inp.get('value')}, documented in the catalogue: {inp.get('documented')}): {data.hex()}")
+    todo = [("hdap" if "packet" in inp else layer, data)] + ([(layer, bytes.fromhex(inp["packet"]))] if "packet" in inp else [])
+    still = 0
+    for lay, d2 in todo:
+        cls = {"hstrp": L.hstrp.HSTRP, "hrnp": L.hrnp.HRNP, "hdap": L.hdap.HDAP}[lay]
+        o = call(cls.from_bytes, d2)
+        parsed = not (isinstance(o, Exc) or o is None)
+        b = call(o.as_bytes) if parsed else o
+        print(f"implementation [{lay}] {d2.hex()}: parse ->", type(o).__name__ if parsed else repr(o), "; re-encode ->", repr(b) if isinstance(b, Exc) or b is None else b.hex())
+        print(f"model: run `echo '{lay}.parse {d2.hex()}' | lean/.lake/build/bin/drv_c12`")
+        if (parsed and b != d2) or (not parsed and inp.get("documented")):
+            still = 1
+    return still
+
+
+# ------------------------------------------------------------------------------------------------
 # corpus
 
 
@@ -3799,7 +4162,13 @@ def run(ctx):
         "numpy.float64 / bool_, octets for Union[bytes, X], bare int for Union[int, Enum], int / Decimal / Fraction coordinates, bytearray / memoryview blobs, RadioIP "
         "from other library paths), one at a time and several at once, HRNP / HSTRP arguments too, all 13 time forms x clock boundaries, all GPS forms x 6 base records; "
         "expected = octets of the PDU built from the plain values + hand-written wrappers + the model's reading of the GPS argument forms; rich time / date objects also "
-        "in 20 % of the LP reports of the random stream and in history steps. A case is one PDU (distinct = distinct field tuple and text hand-over), one history or one probe; all are non-trivial."
+        "in 20 % of the LP reports of the random stream and in history steps. Round 5 constant tables: every Enum member / dict-literal key / class constant of "
+        "okdmr/dmrlib/hytera/pdu/*.py and of what they import, read with ast from the current source and compared with the catalogue c12.enums.json (direction only): hand-written "
+        "frames of the 40 implemented message kinds (plain / reliable), every documented member in every field where its enum is parsed, every value of every 8-bit field, "
+        "the seed-rotated sixteenth (thorough: all) of 0..65535 + the neighbourhood of every catalogue entry in every 16-bit field and as raw opcode of an UnknownService PDU "
+        "built by the library, all 128 HSTRP option types, all 256 HRNP opcodes, and every value that differs from the catalogue (old, new, each +-1) in every field of every kind; "
+        "entry points: service class, HDAP, HRNP and HSTRP from_bytes of hand-written wrappers; what parses is rebuilt through the constructor and goes through the whole oracle. "
+        "A case is one PDU (distinct = distinct field tuple and text hand-over), one history, one probe or one frame; all are non-trivial except table frames that carry an undocumented value."
     )
     ctx.trusted_base += [
         "Lean 4.33 kernel",
@@ -3820,7 +4189,8 @@ def run(ctx):
     ctx.assumptions += [
         "in-range fields: enum-typed attributes are members, integers fit their wire width, GPS coordinates are multiples of 10^-4 "
         "below 10^4 / 10^5 minutes, dates lie in 2000..2099, RCP raw payloads have the length their opcode fixes "
-        "(zone/channel request 5, id/ip reply 4, broadcast configuration 1+2n), an UnknownService raw opcode is not a known opcode, "
+        "(zone/channel request 5, id/ip reply 4, broadcast configuration 1+2n), an UnknownService raw opcode is not a known opcode "
+        "(table sweeps: not an opcode that is listed both in the catalogue c12.enums.json and in the current source), "
         "status-change settings are a dict (distinct targets)",
         "HSTRP packets are 'consistent': options only with the option bit and without the heartbeat bit; option bit without options only without payload",
         "fields compared are the attributes the opcode serialises (relevant_tuple); attributes an opcode never writes are not fields of that PDU",
@@ -3834,6 +4204,9 @@ def run(ctx):
         "typing today (Decimal / Fraction / int coordinates, bytearray / memoryview octets, numpy.bool_ flags) are exercised where the unchanged code has a reading of them; "
         "not exercised because the unchanged code has no reading of them and the signature does not name them: speed as int / Decimal / numpy.float32, direction as float / "
         "numpy integer, text as bytearray, raw RCP opcode as memoryview, numpy.bool_ flags of an HSTRP packet type, -0.0 coordinates",
+        "table sweeps: a hand-written frame is documented when every enum-typed field carries a member value of the catalogue c12.enums.json (taken by `--rebaseline`; "
+        "a difference from it is never a verdict) and the opcode is the kind's own or, for RCP, one the catalogue does not list (pass-through); documented frames have to parse and "
+        "re-encode to themselves; frames with other values only have to be consistent if they parse (not asked of enums that fold unknown values onto a reserved member)",
         "object histories keep every intermediate state in range (option data present before the option flag is set, an opcode is switched only to one whose "
         "fields the object holds) and never change the constructors' shared default objects (GPSData.zero(), the default settings dict) in place",
     ]
@@ -3844,6 +4217,11 @@ def run(ctx):
     run_corpus(ctx, pairs)
     for kind, p in regression_pdus():
         one_pdu(ctx, rng, p, kind, pairs, sample=kind.endswith("request"))
+    if pairs is not None:
+        ctx.correspond("corpus and regression inputs", pairs)
+        pairs = []
+    # -------- round 5: constant tables (enum members / dict keys) read from the current source, swept through every field and entry point
+    run_tables(ctx, rng, pairs)
 
     gens = [("RRS", gen_rrs), ("LP", gen_lp), ("TMP", gen_tmp), ("RCP", gen_rcp)]
     # -------- round 3: where arguments come from (one object at several places), sizes at the limits of the length fields
@@ -4070,6 +4448,8 @@ def replay(obj):
         print("plain answer:          ", abbr(base))
         print(f"under [{pr['setting']}]:", abbr(got))
         still = 0 if got == base else 1
+    elif "frame" in inp and "fields" not in inp:
+        still = replay_frame(inp)
     elif "corpus" in inp:
         data = bytes.fromhex(inp["corpus"])
         cls = {"hstrp": L.hstrp.HSTRP, "hrnp": L.hrnp.HRNP, "hdap": L.hdap.HDAP}[inp.get("layer", "hdap")]
@@ -4273,3 +4653,12 @@ def build_from_tuple(t: str, text_as: str = "octets", rich=None):
         if rich.get("date") and isinstance(g["greenwich_date"], date):
             g["greenwich_date"] = rich_date(g["greenwich_date"], rich["date"])
     return build_plan(svc, plan)
+
+
+if __name__ == "__main__":
+    # maintainer switch: after an INTENDED change of an enum / dict table of the Hytera PDU modules, make the current tables the catalogue
+    if sys.argv[1:] == ["--rebaseline"]:
+        print("written", HT.rebaseline(PROP, HT.roots_pdu()))
+    else:
+        print("usage: /venv/bin/python harness/props/c12.py --rebaseline   (the check itself runs through harness/check.py C12)")
+        sys.exit(2)
